@@ -5,7 +5,7 @@ from __future__ import annotations
 
 import itertools
 
-from ..models import ModelEval, PyObj, Marker, Raised
+from ..models import ModelEval, PyObj, Raised
 from ..peval import Model, Unsupported, ProgramRaised
 from ..poly import Poly, Rat, Fn
 from ..source import AnalysisError
